@@ -106,7 +106,34 @@ func c20Check(c *Ctx, api string, a, b []byte, off int, want bool, f func() bool
 	}
 }
 
+// c20Aliased: the two arguments may be views of the same memory (a string and its own prefix / suffix, a slice
+// and itself): the answers are those of the definitions all the same
+func c20Aliased(c *Ctx, a0 []byte, off int) {
+	if !isASCII(a0) {
+		return
+	}
+	s := placeIn(a0, off, 0xff)
+	str := string(s)
+	for _, k := range []int{0, 1, len(s) / 2, len(s) - 1, len(s)} {
+		if k < 0 || k > len(s) {
+			continue
+		}
+		pre, suf := s[:k], s[len(s)-k:]
+		c20Check(c, "HasPrefixFold(aliased)", a0, pre, off, defPre(s, pre), func() bool { return ascii.HasPrefixFold(s, pre) })
+		c20Check(c, "HasPrefixFold(aliased, longer prefix)", pre, a0, off, defPre(pre, s), func() bool { return ascii.HasPrefixFold(pre, s) })
+		c20Check(c, "HasSuffixFold(aliased)", a0, suf, off, defSuf(s, suf), func() bool { return ascii.HasSuffixFold(s, suf) })
+		c20Check(c, "HasSuffixFold(aliased, longer suffix)", suf, a0, off, defSuf(suf, s), func() bool { return ascii.HasSuffixFold(suf, s) })
+		c20Check(c, "EqualFold(aliased)", a0, pre, off, defEq(s, pre), func() bool { return ascii.EqualFold(s, pre) })
+		c20Check(c, "EqualFold(aliased)", pre, a0, off, defEq(pre, s), func() bool { return ascii.EqualFold(pre, s) })
+		c20Check(c, "HasPrefixFoldString(aliased)", a0, pre, off, defPre(s, pre), func() bool { return ascii.HasPrefixFoldString(str, str[:k]) })
+		c20Check(c, "HasPrefixFoldString(aliased, longer prefix)", pre, a0, off, defPre(pre, s), func() bool { return ascii.HasPrefixFoldString(str[:k], str) })
+		c20Check(c, "HasSuffixFoldString(aliased)", a0, suf, off, defSuf(s, suf), func() bool { return ascii.HasSuffixFoldString(str, str[len(str)-k:]) })
+		c20Check(c, "EqualFoldString(aliased)", a0, pre, off, defEq(s, pre), func() bool { return ascii.EqualFoldString(str, str[:k]) })
+	}
+}
+
 func c20All(c *Ctx, a0, b0 []byte, off int) {
+	c20Aliased(c, a0, off)
 	a, b := placeIn(a0, off, 0xff), placeIn(b0, (off*7+3)%64, 0x80)
 	c20Check(c, "Valid", a0, nil, off, defValid(a), func() bool { return ascii.Valid(a) })
 	c20Check(c, "ValidString", a0, nil, off, defValid(a), func() bool { return ascii.ValidString(string(a)) })
